@@ -126,11 +126,14 @@ def doDftAdj (l : Line) : Option String := do
     some s!"ok shape={showNatList sh} y={showList CF.str y.toList}"
   | _ => none
 
-/-- `dftrangector fshape= given=`: does the constructor of a plain DFT operator build its range -/
+/-- `dftrangector fshape= given=`: does the constructor of a plain DFT operator build its range,
+and the per-axis extent of the default range -/
 def doDftRangeCtor (l : Line) : Option String := do
   let fs ← l.nats? "fshape"; let g ← l.bool? "given"
   if fs.isEmpty || fs.any (· = 0) then none
-  some ((dftDefaultRangeStatus fs g).getD "ok")
+  match dftDefaultRangeStatus fs g with
+  | some e => some e
+  | none => some (if g then "ok" else s!"ok extent={showNatList (fs.map dftDefaultRangeExtent)}")
 
 /-- `ft impl=np|fftw inv= plus= hc= realdom= rshape= axes= shifts= x0= s= x=`
 `FourierTransform` / `FourierTransformInverse`.  `x0`, `s`: per-AXIS-OF-THE-ARRAY minimum
@@ -218,6 +221,15 @@ def doUnravel (l : Line) : Option String := do
   let sl := (ravelSlices a d).map (·.2)
   some s!"ok blocks={showRatMat (unravel sl x)}"
 
+/-- `scales a= d=`: `WaveletTransformBase.scales()` as a flat list of level indices -/
+def doScales (l : Line) : Option String := do
+  let a ← l.get? "a" >>= parseShape
+  let d ← match l.get? "d" with
+    | some "-" => some []
+    | some ds => (ds.splitOn "/").mapM parseLevel
+    | none => none
+  some s!"ok s={showNatList (scalesOf a d)}"
+
 /-- `crop recon=5,4 intended=4,4` -/
 def doCrop (l : Line) : Option String := do
   let r ← l.nats? "recon"; let n ← l.nats? "intended"
@@ -259,6 +271,17 @@ def doDftRange (l : Line) : Option String := do
 def doPlan (l : Line) : Option String := do
   let f ← l.bool? "fresh"; let d ← l.bool? "destroys"; let ip ← l.bool? "inplace"
   some s!"ok survives={if dataSurvivesPlanning f d ip then 1 else 0}"
+
+/-- `pyfftwcall backward= ni= n= x=`: `pyfftw_call(..., normalise_idft=ni)` on one axis, exact
+(`n ∈ {1, 2, 4}`) -/
+def doPyfftwCall (l : Line) : Option String := do
+  let bw ← l.bool? "backward"; let ni ← l.bool? "ni"; let n ← l.nat? "n"
+  let x ← l.get? "x" >>= parseCList
+  if x.length ≠ n || n = 0 then none
+  let (w, winv) ← exactRoots n
+  let xa := x.toArray
+  let y := (List.range n).map (pyfftwCall bw ni w winv n (fun j => xa.getD j 0))
+  some s!"ok shape={n} y={showCList y}"
 
 /-- `planreuse given=none|0|1 inplace=`: in-place-ness of the plan `pyfftw_call` executes -/
 def doPlanReuse (l : Line) : Option String := do
@@ -310,10 +333,12 @@ def handle (l : Line) : Option String :=
   | "normaxes" => doNormAxes l
   | "adjexposed" => doAdjExposed l
   | "planreuse" => doPlanReuse l
+  | "pyfftwcall" => doPyfftwCall l
   | "ft" => doFt l
   | "padmode" => doPad l
   | "ravel" => doRavel l
   | "unravel" => doUnravel l
+  | "scales" => doScales l
   | "crop" => doCrop l
   | "adjweights" => doAdjWeights l
   | "adjapply" => doAdjApply l
